@@ -12,4 +12,5 @@ Definition config_actual : quirks :=
     "cli_override_skips_language_sections[nesting]"; "cli_override_skips_language_sections[srp]";
     "repo_ignore_not_loaded[json]"; "repo_ignore_not_loaded[pyproject]"; "repo_ignore_not_loaded[--config]";
     "global_config_option_ignored"; "dry_config_option_merges_section_only";
-    "pyproject_unparsable_swallowed"; "wrong_type_swallowed" ].
+    "pyproject_unparsable_swallowed"; "wrong_type_swallowed";
+    "language_block_error_retried_without_language"; "invalid_top_level_value_shadowed_by_language_block" ].
